@@ -96,7 +96,7 @@ def panel(l):
     ops["coordination"] = lambda: l.vertices.coordination_numbers
     # SAT-based operations can take exponential time on unsatisfiable parity instances (odd or non-trivalent lattices): they are part of the panel on small
     # lattices and on closed trivalent ones (where a 3-edge-colouring / perfect matching is expected to exist)
-    sat_ok = l.n_vertices <= 30 or (l.n_vertices % 2 == 0 and l.n_edges and bool(np.all(l.vertices.coordination_numbers == 3)))
+    sat_ok = l.n_vertices <= 30 or (l.n_vertices % 2 == 0 and l.n_edges and bool(np.all(core.degrees(l) == 3)))
     ops["edge_color3"] = lambda: gc.edge_color(l, 3)[0:2] if gc.edge_color(l, 3)[0] else (False,)
     ops["vertex_color4"] = lambda: (lambda r: r if r[0] else (False,))(gc.vertex_color(l.edges.indices, 4))
     ops["color_lattice"] = lambda: gc.color_lattice(l)
